@@ -70,6 +70,17 @@ theorem chunks_partition_lines (ls : List Nat) (hl : CH.Lines ls) (chunks : Nat)
 
 example : CH.split [10, 10, 100, 10] 3 = [(0, 120), (120, 130)] := by decide
 
+/-- **The record stream does not depend on the number of chunks** (the thread count of the parallel converters): for any two
+    requested chunk counts — 1 is the serial reading — the lines read chunk after chunk are the same lines in the same order. -/
+theorem chunk_count_does_not_change_the_lines (ls : List Nat) (hl : CH.Lines ls) (c₁ c₂ : Nat) (h₁ : 1 ≤ c₁) (h₂ : 1 ≤ c₂) :
+    (CH.split ls c₁).flatMap (fun c => CH.linesIn 0 0 ls c.1 c.2) = (CH.split ls c₂).flatMap (fun c => CH.linesIn 0 0 ls c.1 c.2) := by
+  rw [CH.chunks_partition_lines ls hl c₁ h₁, CH.chunks_partition_lines ls hl c₂ h₂]
+
+/-- Non-vacuity: the same four lines cut into one, two and three chunks (different cuts, same lines). -/
+example : CH.split [10, 10, 100, 10] 1 ≠ CH.split [10, 10, 100, 10] 3 ∧
+    (CH.split [10, 10, 100, 10] 1).flatMap (fun c => CH.linesIn 0 0 [10, 10, 100, 10] c.1 c.2) = [0, 1, 2, 3] ∧
+    (CH.split [10, 10, 100, 10] 3).flatMap (fun c => CH.linesIn 0 0 [10, 10, 100, 10] c.1 c.2) = [0, 1, 2, 3] := by decide
+
 /-! ## (a) the chromosome index -/
 
 /-- For every grouped file, whenever the bisection returns, its result (after `dedup_by_key`) is exactly the
